@@ -340,6 +340,8 @@ Section WithKdf.
     match l with
     | LFile fname =>
         let (e1, s1) := tick f KUnlink s in
+        if name_max <? len fname then true               (* ENAMETOOLONG from both calls *)
+        else
         match dlookup fname (t_dir s1) with
         | Some (File _) =>
             match e1 with
